@@ -115,6 +115,10 @@ def run(tier):
 
             def mk(E):
                 return create_1d_spectrum(f, E[None, :], np.array([0]), np.array([0.0]), np.array([0.0]), depth=np.array([np.inf]))
+            if j % 4 == 3:
+                # integer-typed variance densities (counts, scaled integers): exact in the library, scaled by a non-integer factor
+                E1 = np.array([rng.randint(0, 9) for _ in range(nf)], dtype=rng.choice(["int64", "int32"]))
+                E2 = np.array([rng.randint(0, 9) for _ in range(nf)], dtype="int64")
             s1, s2 = mk(E1), mk(E2)
             # the sum is formed from the SAME objects whose moments are taken afterwards (and a difference restores nothing)
             ssum, sdif, ssc = s1 + s2, s2 - s1, s1.multiply(np.full((1, nf), cst))
